@@ -1647,27 +1647,38 @@ Proof. unfold irun. rewrite fold_left_app. reflexivity. Qed.
 Lemma ist_eta x : mkI (sh x) (pcs x) = x.
 Proof. destruct x. reflexivity. Qed.
 
+Lemma dcons_proj y i : exists l, di (dcons y i) = irun (di y) l.
+Proof.
+  unfold dcons. destruct (dexit y); [exists []; reflexivity|].
+  exists [ACons 0 i]. cbn [irun fold_left].
+  destruct (nth_error (pcs (di y)) 0) as [p0|]; [|reflexivity].
+  destruct (nth_error (pcs (istep (di y) (ACons 0 i))) 0) as [p1|] eqn:E1; [|destruct p0; reflexivity].
+  destruct p1 as [|lc1|k1 c1 v1 ok1|k1|].
+  - destruct p0 as [|lc|k c v ok|k|]; try reflexivity. destruct ok; [|reflexivity].
+    destruct (if c =? disp_chan then znth (boxes y) v else None); reflexivity.
+  - destruct p0; reflexivity.
+  - destruct p0 as [|lc|k c v ok|k|]; try reflexivity. destruct ok1; [|reflexivity].
+    destruct (if c1 =? disp_chan then znth (boxes y) v1 else None); reflexivity.
+  - destruct p0; reflexivity.
+  - destruct p0; reflexivity.
+Qed.
+
 Lemma dstep_proj y a : exists l, di (dstep y a) = irun (di y) l.
 Proof.
-  destruct a as [a m|a|i|o]; unfold dstep.
+  destruct a as [a m|a|i|o|]; unfold dstep.
   - exists []. destruct (znth (boxes y) a); reflexivity.
   - destruct (znth (boxes y) a) as [b|]; [|exists []; reflexivity].
     destruct (bst b); try (exists []; reflexivity).
     destruct (plain_step (sh (di y)) (OSend disp_chan a)) as [s1 e] eqn:E.
     destruct e as [| | |[|]| | | | | | | |]; try (exists []; reflexivity).
-    exists [AProd (OSend disp_chan a)]. cbn [di irun fold_left istep pstep]. rewrite E. reflexivity.
-  - exists [ACons 0 i]. cbn [irun fold_left].
-    destruct (nth_error (pcs (di y)) 0) as [p0|]; [|reflexivity].
-    destruct (nth_error (pcs (istep (di y) (ACons 0 i))) 0) as [p1|] eqn:E1.
-    + destruct p0 as [|lc|k c v ok|k|]; try reflexivity.
-      * destruct p1 as [|lc1|k c v ok|k|]; try reflexivity. destruct ok; [|reflexivity].
-        destruct (if c =? disp_chan then znth (boxes y) v else None); reflexivity.
-      * destruct ok; [|reflexivity]. destruct p1; try reflexivity.
-        destruct (if c =? disp_chan then znth (boxes y) v else None); reflexivity.
-    + destruct p0 as [|lc|k c v ok|k|]; try reflexivity. destruct ok; reflexivity.
+    exists [AProd (OSend disp_chan a)]. cbn [di with_di with_boxes irun fold_left istep pstep]. rewrite E. reflexivity.
+  - apply dcons_proj.
   - assert (exists l, istep (di y) (AProd o) = irun (di y) l) as G by (exists [AProd o]; reflexivity).
-    destruct o as [cap| |c|c v|c|k|seed cfg]; cbn [di]; try exact G;
-      (destruct (c =? disp_chan); [exists []; reflexivity | exact G]).
+    destruct o as [cap| |c|c v|c|k|seed cfg]; cbn [di with_di]; try exact G.
+    + destruct (c =? disp_chan); [exists []; reflexivity|].
+      destruct (dstopped y && (c =? timer_chan)); [exists []; reflexivity | exact G].
+    + destruct (c =? disp_chan); [exists []; reflexivity | exact G].
+  - destruct (dstopped y); [exists []; reflexivity|]. eexists. reflexivity.
 Qed.
 
 Lemma drun_proj acts : forall y, exists l, di (drun y acts) = irun (di y) l.
@@ -1698,4 +1709,141 @@ Proof.
   intro H. unfold dstep. destruct (znth (boxes y) a) as [b|]; [|reflexivity].
   destruct (bst b); try reflexivity.
   destruct (plain_step (sh (di y)) (OSend disp_chan a)) as [s1 e]. simpl in H. subst e. reflexivity.
+Qed.
+
+(* ---- teardown ---- *)
+Lemma istep_pcs_length x a : length (pcs (istep x a)) = length (pcs x).
+Proof.
+  destruct a as [o|j i]; simpl; [reflexivity|].
+  destruct (nth_error (pcs x) j) as [p|]; [|reflexivity].
+  destruct (cstep (sh x) p i) as [[s1 p1]|]; [|reflexivity]. simpl. apply length_upd.
+Qed.
+
+Lemma irun_prods_pcs x l : pcs (irun x (map AProd l)) = pcs x.
+Proof. apply producers_never_run. Qed.
+
+(* every action other than a consumer step leaves the consumer where it is *)
+Lemma dstep_pcs y a : (forall i, a <> DCons i) -> pcs (di (dstep y a)) = pcs (di y).
+Proof.
+  intro N. destruct a as [a m|a|i|o|]; unfold dstep.
+  - destruct (znth (boxes y) a); reflexivity.
+  - destruct (znth (boxes y) a) as [b|]; [|reflexivity]. destruct (bst b); try reflexivity.
+    destruct (plain_step (sh (di y)) (OSend disp_chan a)) as [s1 e].
+    destruct e as [| | |[|]| | | | | | | |]; reflexivity.
+  - exfalso. exact (N i eq_refl).
+  - destruct o as [cap| |c|c v|c|k|seed cfg]; try reflexivity.
+    + destruct (c =? disp_chan); [reflexivity|].
+      destruct (dstopped y && (c =? timer_chan)); reflexivity.
+    + destruct (c =? disp_chan); reflexivity.
+  - destruct (dstopped y); reflexivity.
+Qed.
+
+Definition exit_inv (y : dst) : Prop :=
+  length (pcs (di y)) = 1%nat /\ (dexit y = true -> pcs (di y) = [PTop]).
+
+Lemma dexit_other y a : (forall i, a <> DCons i) -> dexit (dstep y a) = dexit y.
+Proof.
+  intro N. destruct a as [a m|a|i|o|]; unfold dstep.
+  - destruct (znth (boxes y) a); reflexivity.
+  - destruct (znth (boxes y) a) as [b|]; [|reflexivity]. destruct (bst b); try reflexivity.
+    destruct (plain_step (sh (di y)) (OSend disp_chan a)) as [s1 e].
+    destruct e as [| | |[|]| | | | | | | |]; reflexivity.
+  - exfalso. exact (N i eq_refl).
+  - destruct o as [cap| |c|c v|c|k|seed cfg]; try reflexivity.
+    + destruct (c =? disp_chan); [reflexivity|].
+      destruct (dstopped y && (c =? timer_chan)); reflexivity.
+    + destruct (c =? disp_chan); reflexivity.
+  - destruct (dstopped y); reflexivity.
+Qed.
+
+Lemma dcons_exit_inv y i : exit_inv y -> exit_inv (dcons y i).
+Proof.
+  intros [L E]. unfold dcons. destruct (dexit y) eqn:X; [split; auto|].
+  assert (length (pcs (istep (di y) (ACons 0 i))) = 1%nat) as L1 by (rewrite istep_pcs_length; exact L).
+  destruct (nth_error (pcs (di y)) 0) as [p0|] eqn:E0.
+  2:{ split; simpl; [exact L1 | congruence]. }
+  destruct (nth_error (pcs (istep (di y) (ACons 0 i))) 0) as [p1|] eqn:E1.
+  2:{ destruct p0; (split; simpl; [exact L1 | congruence]). }
+  assert (p1 = PTop -> pcs (istep (di y) (ACons 0 i)) = [PTop]) as T.
+  { intros ->. destruct (pcs (istep (di y) (ACons 0 i))) as [|q [|q2 r]]; simpl in *; try discriminate.
+    inv E1. reflexivity. }
+  destruct p1 as [|lc1|k1 c1 v1 ok1|k1|].
+  - (* back at the top *)
+    destruct p0 as [|lc|k c v ok|k|]; cbn [di dexit with_di with_boxes];
+      try (split; [exact L1 | intros _; exact (T eq_refl)]).
+    destruct ok; [|split; [exact L1 | intros _; exact (T eq_refl)]].
+    destruct (if c =? disp_chan then znth (boxes y) v else None); cbn [di dexit with_di];
+      (split; [exact L1 | intros _; exact (T eq_refl)]).
+  - destruct p0; (split; simpl; [exact L1 | congruence]).
+  - destruct p0 as [|lc|k c v ok|k|]; try (split; simpl; [exact L1 | congruence]).
+    destruct ok1; [|split; simpl; [exact L1 | congruence]].
+    destruct (if c1 =? disp_chan then znth (boxes y) v1 else None); (split; simpl; [exact L1 | congruence]).
+  - destruct p0; (split; simpl; [exact L1 | congruence]).
+  - destruct p0; (split; simpl; [exact L1 | congruence]).
+Qed.
+
+Lemma dstep_exit_inv y a : exit_inv y -> exit_inv (dstep y a).
+Proof.
+  intro I. destruct a as [a m|a|i|o|]; try apply (dcons_exit_inv y i I);
+    (destruct I as [L E]; split;
+     [rewrite dstep_pcs by discriminate; exact L
+     | rewrite dexit_other by discriminate; rewrite dstep_pcs by discriminate; exact E]).
+Qed.
+
+Lemma drun_exit_inv acts : forall y, exit_inv y -> exit_inv (drun y acts).
+Proof.
+  induction acts as [|a r IH]; intros y I; simpl; [exact I|]. apply IH. apply dstep_exit_inv. exact I.
+Qed.
+
+Lemma dinit_exit_inv n : exit_inv (dinit n).
+Proof. split; simpl; [reflexivity | discriminate]. Qed.
+
+Lemma dexit_sticky acts : forall y, dexit y = true -> dexit (drun y acts) = true /\ pcs (di (drun y acts)) = pcs (di y).
+Proof.
+  induction acts as [|a r IH]; intros y X; simpl; [auto|].
+  assert (dexit (dstep y a) = true /\ pcs (di (dstep y a)) = pcs (di y)) as [X1 P1].
+  { destruct a as [a m|a|i|o|]; try (split; [rewrite dexit_other by discriminate; exact X
+                                              | apply dstep_pcs; discriminate]).
+    unfold dstep, dcons. rewrite X. auto. }
+  destruct (IH _ X1) as [X2 P2]. split; [exact X2 | congruence].
+Qed.
+
+Lemma dlog_after_exit more : forall y, dexit y = true -> dlog (drun y more) = dlog y.
+Proof.
+  induction more as [|a r IH]; intros y X; simpl; [reflexivity|].
+    assert (dexit (dstep y a) = true /\ dlog (dstep y a) = dlog y) as [X1 L1].
+    { destruct a as [a m|a|i|o|]; unfold dstep.
+      - destruct (znth (boxes y) a); auto.
+      - destruct (znth (boxes y) a) as [b|]; auto. destruct (bst b); auto.
+        destruct (plain_step (sh (di y)) (OSend disp_chan a)) as [s1 e].
+        destruct e as [| | |[|]| | | | | | | |]; auto.
+      - unfold dcons. rewrite X. auto.
+      - destruct o as [cap| |c|c v|c|k|seed cfg]; auto.
+        + destruct (c =? disp_chan); auto. destruct (dstopped y && (c =? timer_chan)); auto.
+        + destruct (c =? disp_chan); auto.
+      - destruct (dstopped y); auto. }
+    rewrite (IH _ X1). exact L1.
+Qed.
+
+(* once the loop has ended nothing of the service runs any more, whatever is produced *)
+Lemma after_exit n acts more :
+  let y := drun (dinit n) acts in
+  dexit y = true ->
+  let z := drun y more in
+  dexit z = true /\ pcs (di z) = [PTop] /\ running (di z) = 0%nat /\ dlog z = dlog y.
+Proof.
+  intros y X z. destruct (drun_exit_inv acts _ (dinit_exit_inv n)) as [_ E]. fold y in E.
+  destruct (dexit_sticky more y X) as [X2 P2]. fold z in X2, P2.
+  assert (pcs (di z) = [PTop]) as PZ by (rewrite P2; apply E; exact X).
+  repeat split; auto.
+  - unfold running. rewrite PZ. reflexivity.
+  - apply dlog_after_exit. exact X.
+Qed.
+
+(* a send on a closed channel (Post after Sche.Stop) is dropped: nothing changes *)
+Lemma closed_send_dropped s c v : snd (step s (OSend c v)) = ESent false -> fst (step s (OSend c v)) = s.
+Proof.
+  simpl. destruct (valid_user_chan s c); [|discriminate].
+  destruct (znth (chans s) c) as [ch|]; [|discriminate].
+  destruct (cclosed ch); [reflexivity|]. destruct (ccap ch <=? zlen (cq ch)); discriminate.
 Qed.
